@@ -64,6 +64,15 @@ CHECKS = {
             "in the history must equal the answer of a single search on a private deserialized copy.",
             "pickle output of an unchanged index is byte-stable (checked each case); sampling of histories.",
             "DESIGN.md §3 C07"),
+    "C08": ("exploration", "outcome classifier over a configuration grid (refused@phase / correct / WRONG) with escalation to many forced tries when searches raise",
+            "Every single-field substitution (length fields over {8,16,20,24,32,48,0,-1,2.5,'16',None}; block, capacity, "
+            "locality and ratio fields over small/boundary/invalid values), every single-field deletion, every "
+            "primitive name (valid, alias, empty, unknown, wrong kind), all pairs of length fields and random 2..4-field "
+            "combinations are run through SSEConfig..Search on a database generated to be valid for that "
+            "configuration. A completed search with a result != DB.get(w, empty) is the refutation; when an accepted "
+            "index makes searches raise, up to 30 rounds of 40 one-posting keywords force the 1-in-256 silent case.",
+            "The disjunction is evaluated per search; any exception type is a loud refusal; 20 s alarm per case (timeout = inconclusive).",
+            "DESIGN.md §3 C08"),
     "C14": ("exploration", "post-condition monitors + independent recomputation of every ciphertext (PKCS7 + AES-CBC with the observed IV)",
             "The real AES-CBC wrapper (obtained by name, as the schemes do) is driven with all message lengths 0..80 "
             "for each key length and several keys, random lengths to 4096 biased to block boundaries, related keys, "
